@@ -30,6 +30,30 @@ def small_tree(idx):
              b"dir/dup": Node("file", 0o644, data=[("rand", 1, 5000)]),
              b"lnk": Node("slink", 0o777, target=b"dir/file"), b"dev": Node("cdev", 0o600, dev=(1, 3)),
              b"hl": Node("file", link_to=b"dir/file"), b"empty": Node("file", 0o644, data=[])}
+    elif idx == 2:
+        # medium: several metadata blocks worth of inodes and directory entries, many distinct xattr sets, several fragment blocks
+        t = {b"": Node("dir", 0o755)}
+        for d in range(4):
+            t[b"d%d" % d] = Node("dir", 0o755, xattrs={b"user.dir": b"%d" % d})
+            for i in range(90):
+                t[b"d%d/file-with-a-longer-name-%03d" % (d, i)] = Node("file", 0o644, uid=i % 7, gid=d, data=[("rand", d * 100 + i, 300 + 37 * i)],
+                                                                  xattrs={b"user.n": b"%d" % (d * 100 + i)} if i % 3 == 0 else {})
+        t[b"big"] = Node("file", 0o644, data=[("rep", b"abc", 9 * bs + 5)])
+        t[b"holes"] = Node("file", 0o644, data=[("zero", 2 * bs), ("rand", 5, bs), ("zero", bs), ("bytes", b"end")])
+        t[b"hl"] = Node("file", link_to=b"big")
+        t[b"lnk"] = Node("slink", 0o777, target=b"d0")
+        t[b"dev"] = Node("bdev", 0o600, dev=(8, 1))
+    elif idx == 3:
+        import random
+        t, _ = gentree.gen_tree(random.Random(13), bs=bs, max_entries=80)
+        for n in t.values():
+            if n.uid == 0xFFFFFFFF:
+                n.uid = 1
+            if n.gid == 0xFFFFFFFF:
+                n.gid = 1
+        t = {p: n for p, n in t.items() if b"\n" not in p and not (n.target and b"\n" in n.target)}
+        t = {p: n for p, n in t.items() if all(q in t for q in gentree.parents(p)) and (n.link_to is None or n.link_to in t)}
+        t[b"big"] = Node("file", 0o644, data=[("rep", b"xyz", 3 * bs + 1)])
     else:
         t = {b"": Node("dir", 0o755)}
         for i in range(12):
@@ -124,7 +148,8 @@ def scenarios_for(binaries, work, idx, tier):
 
 
 def run_scenario(arg):
-    idx, sci, tier = arg
+    idx, sci, tier = arg[:3]
+    part, nparts = arg[3:] if len(arg) > 3 else (0, 1)
     oc = core.Outcome("in%d-sc%d" % (idx, sci))
     try:
         B = build.build("asan")
@@ -148,6 +173,8 @@ def run_scenario(arg):
                 ks = list(range(1, n + 1))
                 if tier == "quick" and n > 60:
                     ks = ks[:40] + ks[40::max(1, (n - 40) // 20)]
+                elif idx >= 2 and n > 400:
+                    ks = ks[:200] + ks[200::max(1, (n - 200) // 200)]
                 for k in ks:
                     kinds = [("EIO", 0, 0)]
                     if cls in ("write", "pwrite", "trunc", "fsync"):
@@ -162,11 +189,14 @@ def run_scenario(arg):
             ks = list(range(1, n + 1))
             if tier == "quick" and n > 400:
                 ks = ks[:300] + ks[300::max(1, (n - 300) // 100)]
+            elif idx >= 2 and n > 1200:
+                ks = ks[:300] + ks[300::max(1, (n - 300) // 900)]
             for k in ks:
                 plan.append(("alloc", k, "ENOMEM", 0, 0))
+            exhaustive = all(counts.get(c, 0) <= 60 for c in SYS_CLASSES) and counts.get("alloc", 0) <= 400 or (tier == "thorough" and idx < 2)
+            plan = plan[part::nparts]
             oc.inc("positions_planned", len(plan))
-            exhaustive = all(counts.get(c, 0) <= 60 for c in SYS_CLASSES) and counts.get("alloc", 0) <= 400 or tier == "thorough"
-            oc.counters["exhaustive_scenarios"] = 1 if exhaustive else 0
+            oc.counters["exhaustive_scenarios"] = 1 if exhaustive and part == 0 else 0
             callerf = os.path.join(work, "caller")
             sites = set()
             for cls, k, en, sticky, eintr in plan:
@@ -285,9 +315,12 @@ def main(tier):
     rep = core.Report(PROP, tier, "fault_enumeration",
                       "for each (input, tool scenario) a counting run records how many calls of each class occur (read, write, pread, pwrite, ftruncate, open, fsync, readdir; "
                       "allocations made by project code); then one run per (class, k, kind) on the ASan build with exactly that fault injected at link-time wrappers. "
-                      "quick enumerates every k for the small inputs (sampling only beyond 60 syscalls / 400 allocations per class); distinct = distinct (tool, class, failing call site)")
+                      "quick enumerates every k for the two small inputs (sampling only beyond 60 syscalls / 400 allocations per class); thorough enumerates every k for the small inputs and adds two medium inputs (hundreds of inodes, several metadata and fragment blocks: every system call position up to 400 per class, the first 300 and ~900 evenly spread allocation positions); distinct = distinct (tool, class, failing call site)")
     build.build("asan")
     items = [(i, s, tier) for i in range(2) for s in range(18)]
+    if tier != "quick":
+        # the two medium inputs: positions of one scenario are spread over several workers
+        items = [(i, s, tier, part, 4) for i in range(4) for s in range(18) for part in range(4)]
     if os.environ.get("VERIF_ONLY"):
         a, b = os.environ["VERIF_ONLY"].split(":")
         items = [(int(a), int(b), tier)]
@@ -300,11 +333,11 @@ def main(tier):
     if not os.environ.get("VERIF_ONLY"):
         for oc in core.pmap(trunc_case, [(i, tier) for i in range(2 if tier == "quick" else 8)]):
             rep.add(oc)
-    rep.extra["scenarios"] = len(items)
+    rep.extra["scenarios"] = len(set(x[:2] for x in items))
     rep.extra["scenarios_enumerated_exhaustively"] = exh
     rep.evaluations = rep.counters.get("faults_fired", 0) + rep.counters.get("truncated_tar_runs", 0) + rep.counters.get("truncated_image_runs", 0)
     rep.distinct_override = sites
-    rep.exhaustive = (exh == len(items))
+    rep.exhaustive = (exh == len(set(x[:2] for x in items)))
     rep.required_nonzero = ["faults_fired", "reported", "faults_alloc", "faults_pwrite", "faults_read", "faults_write"]
     rep.assumptions = ["single fault per run; allocation faults cover allocations made by project code (libc/zlib internal allocations are not failed)",
                        "-j 1 so that the k-th call is deterministic"]
